@@ -75,6 +75,12 @@ PairHists ==
         LAMBDA t, v, s : <<Compile(1, s, t), Invoke(1, v)>>)
     \o Prod3(Prod2(<<"M", "N">>, Kinds, LAMBDA c, k : ObjIdx(c, k)), Prod2(<<"M", "N", "A">>, Kinds, LAMBDA c, k : ObjIdx(c, k)), <<SRC_n_plus_1>>,
               LAMBDA t, v, s : <<Compile(1, s, t), Invoke(1, v)>>)
+\* ... and each callable is checked against ITS OWN compile-time environment, whatever the engine compiled afterwards
+PairHists2 ==
+  Concat(Map1A(<<"raw", "struct", "map">>, LAMBDA k :
+    Prod3(<<ObjIdx("A", k), ObjIdx("D", k), ObjIdx("C", k)>>, <<ObjIdx("A", k), ObjIdx("D", k), ObjIdx("E", k)>>, <<SRC_n_plus_1, SRC_one, SRC_type_err>>,
+          LAMBDA t1, t2, s2 : <<Compile(1, SRC_len_xs_plus_n, t1), Compile(1, s2, t2), Invoke(1, ObjIdx("A", k)), Invoke(1, ObjIdx("D", k)),
+                                Invoke(2, ObjIdx("A", k))>>)))
 \* short sources whose nesting is deep: compile and evaluation time must stay polynomial (watchdog)
 RECURSIVE RepT(_, _)
 RepT(x, n) == IF n = 0 THEN <<>> ELSE x \o RepT(x, n - 1)
@@ -106,23 +112,26 @@ TotalHists ==
 \* What the API must return for each: a value or an error -- and which.
 HostNames == <<"H_nil", "H_nilptr_struct", "H_ptr_nilptr", "H_ptr_nilmap", "H_ptrptr_struct", "H_chan", "H_func", "H_int",
                "H_deep120", "H_selfref", "H_mixed_iface_slice", "H_map_intkeys", "H_map_mixed_iface", "H_struct_chan_field",
-               "H_nested_nil_iface", "H_empty_struct", "H_ptr_struct">>
+               "H_nested_nil_iface", "H_empty_struct", "H_ptr_struct", "H_iface_cycle", "H_ptr_cycle", "H_iface_cycle_field",
+               "H_map_reserved_key", "H_struct_reserved_tag", "H_map_odd_keys">>
 HostExpect(name, src) ==      \* for the source "1" (needs no variable)
-  IF name \in {"H_nil", "H_ptrptr_struct", "H_empty_struct", "H_ptr_struct", "H_ptr_nilmap"} THEN "value" ELSE "error"   \* (a nil map is an empty environment)
+  IF name \in {"H_nil", "H_ptrptr_struct", "H_empty_struct", "H_ptr_struct", "H_ptr_nilmap",
+               "H_map_reserved_key", "H_struct_reserved_tag", "H_map_odd_keys"} THEN "value" ELSE "error"   \* (names are just names)   \* (a nil map is an empty environment)
 HostHists == Prod2(HostNames, <<SRC_one, SRC_syntax_err>>, LAMBDA hn, s : <<[op |-> "hosteval", src |-> s, host |-> hn]>>)
 
 \* "hist": BFS over actions
-HSrcs == IF P_SIZE >= 4 THEN <<SRC_n_plus_1, SRC_map_lit, SRC_t1_t2, SRC_xs_n, SRC_union_many, SRC_obj_lit, SRC_string_mm>>
-         ELSE <<SRC_map_lit, SRC_t1_t2, SRC_union_many, SRC_xs_n, SRC_string_mm>>
-NEng == IF P_SIZE >= 4 THEN 2 ELSE 1
-HTenvs == <<ObjIdx("A", "raw"), ObjIdx("A", "struct")>>
+\* (length-4 histories over fewer sources: the number of histories is (compile choices + invoke choices)^length)
+HSrcs == IF P_SIZE >= 4 THEN <<SRC_t1_t2, SRC_string_mm, SRC_max_min_xs, SRC_xs0>>
+         ELSE <<SRC_map_lit, SRC_t1_t2, SRC_union_many, SRC_string_mm, SRC_max_min_xs, SRC_xs0>>
+NEng == 1
+HTenvs == <<ObjIdx("A", "raw"), ObjIdx("A", "struct"), ObjIdx("D", "raw")>>
 HVenvs == <<ObjIdx("A", "raw"), ObjIdx("B", "raw"), ObjIdx("A", "map"), ObjIdx("D", "raw")>>
 NCalls(h) == Len(SelectSeq(h, LAMBDA s : s.op = "compile"))
 
 Init == IF P_MODE = "pools" THEN st = [pools |-> TRUE]
         ELSE IF P_MODE = "hist" THEN st = [h |-> <<>>]
         ELSE st \in {[seed |-> i] : i \in 1..16}
-Fixed == IF P_MODE = "pairs" THEN PairHists ELSE IF P_MODE = "total" THEN TotalHists ELSE IF P_MODE = "hosts" THEN HostHists
+Fixed == IF P_MODE = "pairs" THEN PairHists \o PairHists2 ELSE IF P_MODE = "total" THEN TotalHists ELSE IF P_MODE = "hosts" THEN HostHists
          ELSE IF P_MODE = "deep" THEN DeepHists ELSE <<>>
 NF == Len(Fixed)
 Next ==
